@@ -4,6 +4,8 @@
      pool{proto,nidx,mr}   fresh pool + fresh cluster resources (TraceReset)
      op{op,..., res,s,c,cvar, open,live, req,greq,gconn, slots,shut}
         res/s/c    result of CheckAndInit+NewStream, number of the stream, connection its request arrived on
+                   (op "lease": the connection the pool named; op "send": ok = the request arrived at the peer on
+                   connection c, sendfail = the stream was destroyed instead)
         open,live  truth: connection objects still open; two-way streams whose destruction has not run
         req,greq,gconn   books: requests resource, request_active / connection_active gauges
         slots      books (verif accessors): per index the client new streams go to: connection, state
@@ -26,7 +28,8 @@ TPool == /\ IsEvent("pool")
 
 Mis(kind) == PrintT(<<"MISMATCH", l, kind>>)
 
-EvOp == CASE Ev.op = "new" -> [op |-> "new", up |-> Ev.up, oneway |-> Ev.oneway, retry |-> Ev.retry, i |-> IF Has(Ev, "i") THEN Ev.i ELSE 0]
+EvOp == CASE Ev.op \in {"new", "lease"} -> [op |-> Ev.op, up |-> Ev.up, oneway |-> Ev.oneway, retry |-> Ev.retry, i |-> IF Has(Ev, "i") THEN Ev.i ELSE 0]
+          [] Ev.op = "send" -> [op |-> "send", s |-> Ev.s, enc |-> Ev.enc]
           [] Ev.op = "dclose" -> [op |-> "dclose", i |-> Ev.i]
           [] Ev.op \in {"resp", "reset", "rreset"} -> [op |-> Ev.op, s |-> Ev.s]
           [] Ev.op \in {"goaway", "rclose", "garbage"} -> [op |-> Ev.op, c |-> Ev.c]
@@ -36,7 +39,7 @@ ReqBook(q) == q.req      \* the resource counts whether or not a limit is config
 Connected == 2
 
 MResult(r) == /\ r.res = Ev.res
-              /\ (Ev.op = "new" /\ Ev.res = "ok") => (r.c = Ev.c /\ r.s = Ev.s)
+              /\ (Ev.op \in {"new", "lease", "send"} /\ Ev.res = "ok") => (r.c = Ev.c /\ r.s = Ev.s)
 MOpen(r)   == S(Ev.open) = Open(r.m)
 MLive(r)   == S(Ev.live) = r.m.live
 MReq(r)    == Ev.req = ReqBook(r.m) /\ Ev.greq = r.m.act
@@ -52,10 +55,12 @@ MSlots(r)  == /\ \A k \in DOMAIN Ev.slots : LET o == Ev.slots[k] IN
                     \E k \in DOMAIN Ev.slots : Ev.slots[k].i = i /\ Ev.slots[k].st = Connected /\ Ev.slots[k].c = r.m.slot[i]
               /\ Ev.shut = r.m.shut
 
-Tag == Ev.op \o (IF Ev.op = "new" /\ Ev.oneway THEN "-oneway" ELSE "") \o (IF Ev.op = "new" /\ Ev.retry THEN "-retry" ELSE "") \o "/" \o Ev.res
+Tag == Ev.op \o (IF Ev.op \in {"new", "lease", "send"} /\ Ev.oneway THEN "-oneway" ELSE "") \o (IF Ev.op \in {"new", "lease"} /\ Ev.retry THEN "-retry" ELSE "")
+         \o (IF Ev.op = "send" /\ ~Ev.enc THEN "-unencodable" ELSE "") \o "/" \o Ev.res
 
 ResultKind(R) ==
-  IF Ev.op # "new" THEN "result"
+  IF Ev.op = "send" THEN "result-expected-" \o (CHOOSE x \in {r.res : r \in R} : TRUE)
+  ELSE IF Ev.op \notin {"new", "lease"} THEN "result"
   ELSE IF Ev.res = "overflow" THEN "refused-with-capacity"
   ELSE IF Ev.res = "ok" /\ (\A r \in R : r.res = "overflow") THEN "admitted-over-limit"
   ELSE IF Ev.res = "ok" /\ (\A r \in R : r.res = "connfail") THEN "admitted-without-connection"
@@ -69,7 +74,7 @@ OpenKind(R1) == LET exp == Open((CHOOSE r \in R1 : TRUE).m) IN
 TOp ==
   /\ IsEvent("op")
   /\ IF bad THEN UNCHANGED <<vars, bad, ms>>
-     ELSE IF Ev.res \notin {"ok", "overflow", "connfail"}
+     ELSE IF Ev.res \notin {"ok", "overflow", "connfail", "sendfail"}
           THEN Mis(Tag) /\ bad' = TRUE /\ UNCHANGED <<vars, ms>>
      ELSE LET R  == UNION {Step(q, EvOp, maxReq) : q \in ms}
               R1 == {r \in R : MResult(r)}
